@@ -944,7 +944,10 @@ def oracle_c01(tr, sc):
             res.probe('step_converged_to_tolerance')
         else:
             res.probe('step_not_converged_budget')
-        if err > bound:
+        if err > bound and a['iter'] == 0 and cfg['controller'].get('predict_type') is None:
+            # finished at iteration 0 without a sweep: for 'copy'/'zero'/'random' guesses the level's f does not even belong to its u
+            V('stopped_without_sweep', 'CheckConvergence.check_convergence', f"step at t={a['t']!r} was declared finished at iteration 0 without any sweep and its end value is not the collocation solution (error {err:.3e})", kind='zero_sweeps_iter0')
+        elif err > bound:
             V(
                 'not_collocation_solution',
                 'end value',
@@ -974,9 +977,12 @@ def oracle_c01(tr, sc):
             r = recs.get((b, sl, k))
             if r is None or (b, sl) in later or not np.isfinite(r['full']) or sc.get('problem_kind') == 'advection':
                 continue  # (advection with central differences: purely imaginary spectrum, the iteration amplifies rounding by many orders)
+            s_abs = r.get('S_abs')
+            if s_abs is None or not np.isfinite(s_abs):
+                continue
             res.probe('fixed_point_probe')
-            if r['full'] > 1e-9 * max(r['S'], 1e-300):  # clean runs stay below 2e-12 of the rounding scale
-                V('collocation_solution_not_a_fixed_point', 'iteration', f"block {b} slot {sl}: iteration {k} started on the fine collocation solution and ended with defect {r['full']:.3e} (rounding scale {r['S']:.3e})")
+            if r['full'] > 1e-9 * max(s_abs, 1e-300):  # clean runs stay below 2e-12 of the rounding scale of the absolute defect
+                V('collocation_solution_not_a_fixed_point', 'iteration', f"block {b} slot {sl}: iteration {k} started on the fine collocation solution and ended with defect {r['full']:.3e} (rounding scale {s_abs:.3e})")
     if acc and not same_bytes(tr.ret_copy, acc[-1]['uend']):
         V('returned_value', 'run', 'returned value is not the end value of the last step')
 
